@@ -129,6 +129,33 @@ def readDir (g : Graph α) (kids : α → List String) (maxDepth : Nat) (p : α)
   | .cycle => .cycle
   | .depth => .depth
 
+/-! ### The final view under a file requirer (`removeUnnecessaryFileNodes`)
+
+Only the LAST chain layer is pruned. Directories and whiteout nodes always stay; any other node stays
+when the requirer wants it, or when a required symlink needs it: from a required node the loop follows
+the stored targets for up to `maxSymlinkDepth` hops and marks every node it finds. -/
+
+/-- `for range symlinkDepth { linkedNode = tree.Get(linkedNode.targetPath); if nil break; mark; if targetPath == "" break }` -/
+def markFrom (g : Graph α) : Nat → α → List α
+  | 0, _ => []
+  | d+1, p =>
+    match g p with
+    | some (.link t) => (match g t with | none => [] | some _ => t :: markFrom g d t)
+    | _ => []
+
+/-- the pruned final view; `nodes` = every path that has a node, `req` = the requirer -/
+def pruned (g : Graph α) (nodes : List α) (req : α → Bool) (maxDepth : Nat) : Graph α := fun k =>
+  match g k with
+  | none => none
+  | some (.term .dir) => some (.term .dir)
+  | some (.term .wh) => some (.term .wh)
+  | some n =>
+    if req k || nodes.any (fun r => req r && (markFrom g maxDepth r).contains k) then some n else none
+
+/-- `validateConfig` (the symlink depth must not be negative, …) -/
+def validConfig (maxFileBytes : Int) (hasRequirer : Bool) (maxSymlinkDepth : Int) : Bool :=
+  decide (maxFileBytes > 0) && hasRequirer && decide (maxSymlinkDepth ≥ 0)
+
 /-! ### Load time: `handleSymlink` and `TargetOutsideRoot` on path segments
 
 Paths are lists of segments (the pieces between "/"). `none` stands for the marker directory
